@@ -33,7 +33,7 @@ FUNC_PROPS = {
     'Attacker.__deepcopy__': ('C14',),
     'AttackGraph._to_dict': ('C10',),
     'AttackGraph._from_dict': ('C10', 'C09'),
-    'AttackGraphNode.to_dict': ('C10',),
+    'AttackGraphNode.to_dict': ('C10', 'C09'),
     'Attacker.to_dict': ('C10',),
     'Attacker.compromise': ('C11', 'C09'),
     'Attacker.undo_compromise': ('C11', 'C09'),
@@ -48,6 +48,8 @@ FUNC_PROPS = {
     'LanguageGraph.get_association_by_fields_and_assets': ('C15', 'C18', 'C19'),      # used by the securiCAD loader
     'LanguageGraph._get_variable_for_asset_type_by_name': ('C01', 'C03'),
     'LanguageGraph._get_associations_for_asset_type': ('C15', 'C03'),
+    'malVisitor.visitMal': ('C04', 'C17'),                       # includes are compiled (and rejected) from here
+    'LanguageGraph.regenerate_graph': ('C15', 'C03'),            # C03 quantifies over language-graph regenerations
     'LanguageGraph.from_mal_spec': ('C15', 'C04', 'C17'),       # the entry point C04 / C17 observe the compiler through
 }
 
